@@ -17,8 +17,8 @@ sys.path.insert(0, os.path.dirname(os.path.abspath(__file__)))
 from confirm_seed import BASELINE_FILES, sh  # noqa: E402
 
 
-def confirm(prop, k):
-  src = f'/tmp/seed_{prop}/benign/change_{k}'
+def confirm(prop, k, sub='benign'):
+  src = f'/tmp/seed_{prop}/{sub}/change_{k}'
   name = f'{prop}-b{k}'
   if not os.path.isfile(f'{src}/patch.diff'):
     return name, False, 'no patch.diff'
@@ -81,14 +81,16 @@ def confirm(prop, k):
 
 def main():
   jobs = []
-  for prop in sys.argv[1:]:
-    d = f'/tmp/seed_{prop}/benign'
-    if not os.path.isdir(d):
-      print(prop, 'no benign dir')
-      continue
-    for c in sorted(os.listdir(d)):
-      if c.startswith('change_'):
-        jobs.append((prop, c.split('_')[1]))
+  subs = [a[2:] for a in sys.argv[1:] if a.startswith('--')] or ['benign']
+  for prop in [a for a in sys.argv[1:] if not a.startswith('--')]:
+    for sub in subs:
+      d = f'/tmp/seed_{prop}/{sub}'
+      if not os.path.isdir(d):
+        print(prop, f'no {sub} dir')
+        continue
+      for c in sorted(os.listdir(d)):
+        if c.startswith('change_') and not os.path.isdir(f'/verif/benign/{prop}-b{c.split("_")[1]}'):
+          jobs.append((prop, c.split('_')[1], sub))
   with cf.ThreadPoolExecutor(6) as ex:
     for name, ok, msg in ex.map(lambda j: confirm(*j), jobs):
       print(('OK   ' if ok else 'FAIL ') + name + ': ' + msg, flush=True)
